@@ -294,15 +294,16 @@ def run(ctx):
     # ================================================================ R4 placement
     sg = cm_.func("_sort_gathered_items")
     paths = P.feasible_paths(sg)
-    ok = any(p.end == "raise" and any(norm(t) == "sorted_items[item.n] is not None" and pol for t, pol in p.tests_before(len(p.ev))) for p in paths)
+    ok = any(p.end == "raise" and P.has_test(p, "sorted_items[item.n] is not None", True) for p in paths)
     ctx.ob("R4", CSR, "_sort_gathered_items", "two registers fixed at one location raise", ok, "" if ok else "fixed-location clash is not rejected", sg)
-    # the clash test precedes the store of the fixed item
-    okk = True
-    for n in ast.walk(sg):
-        if isinstance(n, ast.For) and norm(n.iter) == "fixed_items" and any("sorted_items[item.n] = item" in norm(s) for s in n.body):
-            idx_t = [i for i, s in enumerate(n.body) if isinstance(s, ast.If) and "sorted_items[item.n] is not None" in norm(s.test)]
-            idx_s = [i for i, s in enumerate(n.body) if norm(s) == "sorted_items[item.n] = item"]
-            okk = bool(idx_t) and bool(idx_s) and idx_t[0] < idx_s[0]
+    # the clash test precedes the store of the fixed item: every path that places a fixed item has seen its slot empty
+    okk, n_store = True, 0
+    for p in paths:
+        for k, e in enumerate(p.ev):
+            if e[0] == "stmt" and isinstance(e[1], ast.Assign) and norm(e[1]) == "sorted_items[item.n] = item":
+                n_store += 1
+                okk = okk and P.has_test(p, "sorted_items[item.n] is None", True, upto=k)
+    okk = okk and n_store > 0
     ctx.ob("R4", CSR, "_sort_gathered_items", "clash test precedes the placement", okk, "" if okk else "fixed item stored before the clash test", sg)
     ok = any(isinstance(n, ast.Assign) and norm(n.targets[0]) == "variable_items" and norm(n.value) == "sorted(variable_items, key=lambda x: x.duid)"
              for n in ast.walk(sg))
